@@ -14,6 +14,7 @@ import (
 	"github.com/slackhq/nebula/config"
 	"github.com/slackhq/nebula/header"
 	"github.com/slackhq/nebula/noiseutil"
+	"github.com/slackhq/nebula/overlay/tio"
 	"github.com/slackhq/nebula/zzverif/mc"
 	"github.com/slackhq/nebula/zzverif/vtime"
 )
@@ -51,6 +52,7 @@ type c15Inject struct {
 	allowed      bool // the destination's firewall admits it when (and only when) attributed to the true sender
 	gen          int
 	delivered    int
+	spoof        bool // hostile sender colluding with the relay: inner source address is another peer's
 }
 
 type c15Held struct {
@@ -61,7 +63,7 @@ type c15Held struct {
 
 type c15Stats struct {
 	rFrames, keyTrials, tunChecked, sweepDeliveries, sweeps, xslotSends, lieSends, lieRefused, replays, fwdDelivered,
-	denied3000, reestabs, authenticAfterSweep int64
+	denied3000, reestabs, authenticAfterSweep, spoofXslot int64
 }
 
 type c15World struct {
@@ -147,19 +149,31 @@ func c15New(t testing.TB, c *mc.Check, st *c15Stats) *c15World {
 
 func (w *c15World) node(name string) *vnode { return w.net.node(name) }
 
-// inject puts a marked UDP packet on origin's tun.
-func (w *c15World) inject(origin, dest string, port uint16) int {
+// inject puts a marked UDP packet on origin's tun. spoofAs != "": a hostile origin (colluding with the relay) encrypts,
+// under its OWN tunnel key, a packet whose inner source address belongs to peer spoofAs (its own stack would refuse to
+// send that, so the real sendInsideMessage is called directly, past the sender's outbound firewall).
+func (w *c15World) inject(origin, dest string, port uint16, spoofAs string) int {
 	o, d := w.node(origin), w.node(dest)
 	k := len(w.inj)
 	payload := append([]byte("c15:"+origin+">"+dest+":"), c15Marker(k)...)
-	pkt := vUDPPacket(o.vpnIP, d.vpnIP, 999, port, payload)
-	allowed := true
-	if dest == "b" {
+	src := o.vpnIP
+	if spoofAs != "" {
+		src = w.node(spoofAs).vpnIP
+	}
+	pkt := vUDPPacket(src, d.vpnIP, 999, port, payload)
+	allowed := spoofAs == ""
+	if dest == "b" && allowed {
 		allowed = (origin == "a" && port == 2000) || (origin == "c" && port == 3000)
 	}
-	w.inj = append(w.inj, c15Inject{origin: origin, dest: dest, port: port, bytes: pkt, mark: k, allowed: allowed, gen: w.gen})
+	w.inj = append(w.inj, c15Inject{origin: origin, dest: dest, port: port, bytes: pkt, mark: k, allowed: allowed, gen: w.gen, spoof: spoofAs != ""})
 	w.pend = k
-	o.tunSend(pkt)
+	if spoofAs == "" {
+		o.tunSend(pkt)
+	} else if hi := o.f.hostMap.QueryVpnAddr(d.vpnIP); hi != nil && hi.ConnectionState != nil {
+		o.f.sendInsideMessage(hi, tio.Packet{Bytes: append([]byte(nil), pkt...)}, o.nb, o.sb)
+		o.f.flushSendBatch(o.sb, 0)
+		o.settle()
+	}
 	w.collect()
 	return k
 }
@@ -169,7 +183,7 @@ func (w *c15World) establish(origin, dest string, port uint16) bool {
 	saved := w.filter
 	w.filter = false
 	defer func() { w.filter = saved }()
-	k := w.inject(origin, dest, port)
+	k := w.inject(origin, dest, port, "")
 	for round := 0; round < 40; round++ {
 		w.run()
 		if w.inj[k].delivered > 0 {
@@ -453,18 +467,31 @@ func (w *c15World) apply(ev string) {
 	if w.dead {
 		return
 	}
+	switch ev { // events whose precondition vanished (only possible when the code under test misbehaves) are no-ops
+	case "fwd", "drop", "xslot", "lieslot":
+		if len(w.held) == 0 {
+			return
+		}
+	case "replay":
+		if w.last == nil {
+			return
+		}
+	}
 	switch ev {
 	case "sendA2000":
-		w.inject("a", "b", 2000)
+		w.inject("a", "b", 2000, "")
 		w.run()
 	case "sendA3000":
-		w.inject("a", "b", 3000)
+		w.inject("a", "b", 3000, "")
+		w.run()
+	case "sendAasC":
+		w.inject("a", "b", 3000, "c")
 		w.run()
 	case "sendC3000":
-		w.inject("c", "b", 3000)
+		w.inject("c", "b", 3000, "")
 		w.run()
 	case "sendB":
-		w.inject("b", "a", 1000)
+		w.inject("b", "a", 1000, "")
 		w.run()
 	case "fwd":
 		h := w.held[0]
@@ -496,6 +523,9 @@ func (w *c15World) apply(ev string) {
 				w.deliverTo(e, w.r.udp, f)
 				if ev == "xslot" {
 					w.st.xslotSends++
+					if h.inj >= 0 && w.inj[h.inj].spoof {
+						w.st.spoofXslot++
+					}
 				} else {
 					w.st.lieSends++
 				}
@@ -556,7 +586,7 @@ func (w *c15World) class(inj int) string {
 		return "?"
 	}
 	i := w.inj[inj]
-	return fmt.Sprintf("%s>%s:%d@g%d", i.origin, i.dest, i.port, i.gen)
+	return fmt.Sprintf("%s>%s:%d@g%d%s", i.origin, i.dest, i.port, i.gen, map[bool]string{true: "spoof"}[i.spoof])
 }
 
 func (w *c15World) menu(maxInj, maxGen int) []string {
@@ -566,7 +596,7 @@ func (w *c15World) menu(maxInj, maxGen int) []string {
 	}
 	scenario := 4 + 2*w.gen // injections made by establish()
 	if len(w.inj)-scenario < maxInj && len(w.held) < 2 {
-		mnu = append(mnu, "sendA2000", "sendC3000", "sendA3000", "sendB")
+		mnu = append(mnu, "sendA2000", "sendC3000", "sendA3000", "sendAasC", "sendB")
 	}
 	if len(w.held) > 0 {
 		mnu = append(mnu, "fwd", "xslot", "lieslot", "drop")
@@ -782,7 +812,7 @@ func TestVerifC15(t *testing.T) {
 		return w
 	}
 	// determinism: one fixed history twice — identical wire bytes and canonical state
-	probe := []string{"sendA2000", "xslot", "lieslot", "fwd", "replay", "sendB", "fwd"}
+	probe := []string{"sendA2000", "xslot", "lieslot", "fwd", "replay", "sendAasC", "xslot", "fwd", "sendB", "fwd"}
 	w1 := run(probe)
 	k1, h1 := w1.key(), w1.net.wireHash()
 	w1.net.close()
@@ -832,6 +862,7 @@ func TestVerifC15(t *testing.T) {
 	c.Set("replayed_frames", st.replays)
 	c.Set("honest_forwards_delivered", st.fwdDelivered)
 	c.Set("port3000_from_a_denied", st.denied3000)
+	c.Set("spoofed_source_sent_on_the_spoofed_peers_slot", st.spoofXslot)
 	c.Set("relay_reestablishments", st.reestabs)
 	c.Set("authentic_accepted_after_sweep", st.authenticAfterSweep)
 	c.Set("explanation", "states = distinct structural network states (relay slots and their states on every node, held/forwarded frames by class, deliveries per class); transitions = histories replayed on four real nodes; in each new state with a held frame every rewrite is delivered to the real endpoint")
@@ -842,7 +873,7 @@ func TestVerifC15(t *testing.T) {
 		c.Require(st.rFrames > 0 && st.keyTrials > 0, "no relayed frame was tried against the relay's keys")
 		c.Require(st.fwdDelivered > 0, "honest forwarding never delivered a packet")
 		c.Require(st.xslotSends > 0 && st.lieSends > 0 && st.lieRefused > 0, "cross-slot (%d) / lie-slot (%d) / refused lies (%d) not reached", st.xslotSends, st.lieSends, st.lieRefused)
-		c.Require(st.denied3000 > 0, "A's packet to C's port was never tried")
+		c.Require(st.denied3000 > 0 && st.spoofXslot > 0, "A's packet to C's port (%d) / A's packet with C's source address on C's slot (%d) never tried", st.denied3000, st.spoofXslot)
 		c.Require(st.replays > 0 && st.sweeps > 0 && st.authenticAfterSweep > 0, "replays (%d) / sweeps (%d) / authentic-after-sweep (%d) not reached", st.replays, st.sweeps, st.authenticAfterSweep)
 		c.Require(st.reestabs > 0, "relay re-establishment never happened")
 	}
